@@ -929,7 +929,7 @@ def run_seed_isolated(job) -> dict:
     from detsim import runner as runmod  # pylint: disable=import-outside-toplevel
 
     try:
-        return runmod.fork_run(run_seed, job, real_timeout=280)
+        return runmod.fork_run(run_seed, job, real_timeout=1150)
     except runmod.RunFailed as err:
         raise base.HarnessError(str(err)[:1500]) from None
 
@@ -967,7 +967,7 @@ def main(argv: list[str]) -> int:
     base.clean_replays(PROP)
     start = time.monotonic()
     jobs = [(seed0 * 1000 + i, enum) for i in range(nseeds)]
-    results, errors, exhausted = base.sweep(run_seed_isolated, jobs, budget)
+    results, errors, exhausted = base.sweep(run_seed_isolated, jobs, budget, per_item_limit_s=1200)
     base.emit_digests(results)
     findings = base.open_findings(PROP)
     stats: collections.Counter = collections.Counter()
